@@ -248,7 +248,7 @@ class World:
             self.viol.append(f"unexpected command {name} reached the NCP")
         self.loop.settle()
 
-    def _confirm(self, dest, tag, ok, mtype="unicast"):
+    def _confirm(self, dest, tag, ok, mtype=0):
         """messageSentHandler built byte by byte from the UG100 layouts (pre-v14: type, destination, APS frame, 8-bit tag,
         status, contents; v14: 32-bit status, type, destination, APS frame, 16-bit tag, contents) -- not through bellows'
         own schema, so a schema that disagrees with the wire shows."""
@@ -258,9 +258,9 @@ class World:
         aps = struct.pack("<HHBBHHB", 0x0104, 0x0006, 1, 1, 0x0040, 0, 0x31)
         st = int(self._status("ok" if ok else "dfail"))
         if self.version >= 14:
-            body = struct.pack("<IBH", st, 0, dest) + aps + struct.pack("<H", tag & 0xFFFF) + b"\x01\x01"
+            body = struct.pack("<IBH", st, mtype, dest) + aps + struct.pack("<H", tag & 0xFFFF) + b"\x01\x01"
         else:
-            body = struct.pack("<BH", 0, dest) + aps + struct.pack("<BB", tag & 0xFF, st) + b"\x01\x01"
+            body = struct.pack("<BH", mtype, dest) + aps + struct.pack("<BB", tag & 0xFF, st) + b"\x01\x01"
         self.last_confirm = (dest, tag, ok)
         self.ncp.deliver(ezspenv.enc_response_hdr(self.version, self.ncp.last_seq, cid, callback=True) + body)
         self.loop.settle()
@@ -326,6 +326,9 @@ class World:
                         out.append((("confirm-foreign-tag-hi", aw[0].idx), 1))
                 if L["fdest"] > 0:
                     out.append((("confirm-foreign-destination", aw[0].idx), 1))
+                    # the confirmation of somebody else's broadcast / multicast / table-addressed unicast that happens to carry this tag
+                    for mt in (1, 3, 6):
+                        out.append((("confirm-foreign-destination-type", aw[0].idx, mt), 1))
                 if L["T"] > 0 and self.loop.next_deadline() is not None:
                     out.append((("T",), 1))
                 if len(aw) > 1:
@@ -387,6 +390,10 @@ class World:
             L["fdest"] -= 1
             p = self.pkts[label[1]]
             self._confirm(0x7777, p.tag, True)
+        elif k == "confirm-foreign-destination-type":
+            L["fdest"] -= 1
+            p = self.pkts[label[1]]
+            self._confirm(0xFFFC if label[2] == 6 else 0x7777, p.tag, True, mtype=label[2])
         elif k == "confirm-duplicate":
             L["dup"] -= 1
             self._confirm(*self.last_confirm)
@@ -535,7 +542,7 @@ def vkey(msg):
 
 def param_list(tier):
     versions = [4, 8, 9, 13, 14] if tier == "quick" else ezspenv.VERSIONS   # 13 | 14: both sides of the v14 layout switch
-    pairs = [("U", "U2"), ("S", "U"), ("X", "S"), ("S", "X"), ("I", "S"), ("M", "U"), ("B", "S"), ("U", "Iu"), ("U", "M")]
+    pairs = [("U", "U2"), ("S", "U"), ("X", "S"), ("S", "X"), ("I", "S"), ("M", "U"), ("B", "S"), ("U", "Iu"), ("U", "M"), ("S", "B"), ("X", "M")]
     out = []
     for v in versions:
         for kinds in pairs:
